@@ -26,6 +26,7 @@ VALS = {"k1": "x\r\ny\r", "k2": b"y\r\n\x00", "k3": None, "k4": Obj("o")}
 KEYS = ["k1", "k2", "k3", "k4", "k5"]  # k5 is never stored
 H = {k: k[1] * 64 for k in KEYS}
 SEGS = ["a", "b", "ab", "a b", "a.b", ".a", "é", ".", ".."]
+URI_SEGS = ["a?", "a#", "a%20b", "a%", "a;b", "a?b=c", "a#b", "?", "#", "a:b", "a\\b", "a+b", "a&b"]
 
 
 class Sys:
@@ -332,6 +333,10 @@ def run(tier, seed):
     # ---- Part B
     p3 = all_paths(3)
     extra4 = ["/a/b/a/b", "/ab/a/b", "/a/ba/b", "/a/b/ab", "/a/b/c/d".replace("c", "a").replace("d", "b"), "/ab/ab", "/a/b/a b", "/./a/b/a", "/a/b/../a"]
+    # segments that mean something in a URI (DBFS locations are URIs): each next to its plain counterpart
+    for sp_ in URI_SEGS:
+        extra4 += ["/" + sp_, "/a/" + sp_, "/" + sp_ + "/a"]
+    extra4 += ["/a/a", "/a"] if "/a/a" not in p3 else []
     singles = [(k, p) for k in ("memory", "local", "dbfs") for p in p3 + extra4]
     sres = pool.pmap(_single_job, singles)
     status = {}
